@@ -118,12 +118,14 @@ package eventloop
 
 //@ func (*EventLoop).processEvent property C14
 //@   opt callbacks trace
+//@   ghost at call dispatchDelayedEvents :: emit disp(tracelen(cb))
+//@   ensures [deferred-released-after-all-handlers] !runningInAddEvent ==> tracelen(disp) == old(tracelen(disp)) + 1 && traceat(disp, 0, old(tracelen(disp))) == tracelen(cb)
 //@   requires event != nil && wdisj(el)
 //@   uses pcnt_bounds
 //@   uses ncnt_bounds
 //@   uses pcnt_mono
 //@   uses ncnt_mono
-//@   modifies trace(cb), trace(added), el.waitingEvents[*], el.eventQ.head, el.eventQ.tail, el.eventQ.entries[*], alloc
+//@   modifies trace(cb), trace(added), trace(disp), el.waitingEvents[*], el.eventQ.head, el.eventQ.tail, el.eventQ.entries[*], alloc
 //@   ensures [count] tracelen(cb) == old(tracelen(cb)) + old(pcnt(el.handlers[typeof(event)], len(el.handlers[typeof(event)]), runningInAddEvent)) + old(ncnt(el.handlers[typeof(event)], len(el.handlers[typeof(event)]), runningInAddEvent))
 //@   loop 0 invariant [lists] (fresh(priorityList) || cap(priorityList) == 0) && (fresh(handlerList) || cap(handlerList) == 0) && (cap(priorityList) > 0 && cap(handlerList) > 0 ==> disjoint(priorityList, handlerList))
 //@   loop 0 invariant [collected-priority] forall k int :: {priorityList[k]} 0 <= k && k < len(priorityList) ==> priorityList[k] != nil
